@@ -14,7 +14,7 @@ DIFF_IN = (b"diff --git a/x.rs b/x.rs\nindex 1..2 100644\n--- a/x.rs\n+++ b/x.rs
            b"+let b = 3;\n")
 
 
-def run_scheduled(mode, schedule, workdir, idx):
+def run_scheduled(mode, schedule, workdir, idx, delay=""):
     """Run delta under a stub parent that looks like `git log -p`, forcing the hook schedule."""
     binpath = os.path.join(core.FIXBIN, "bin")
     trace = os.path.join(workdir, f"trace{idx}.ndjson")
@@ -22,6 +22,8 @@ def run_scheduled(mode, schedule, workdir, idx):
         os.unlink(trace)
     env = core.base_env({"PATH": binpath + ":/usr/bin:/bin", "DELTA_VERIF_TRACE": trace,
                          "DELTA_VERIF_SCHEDULE": ",".join(schedule)})
+    if delay:
+        env["DELTA_VERIF_DELAY"] = delay
     if mode == "wrap":
         grep_file = os.path.join(workdir, "grep.txt")
         env["STUB_OUT"] = grep_file
@@ -89,14 +91,19 @@ def run(tier):
             scheds = [s for s in scheds if "m_enter" not in s]
         if tier == "quick" and len(scheds) > 80:
             scheds = rnd.sample(scheds, 80)
-        jobs += [(mode, s) for s in scheds]
-        jobs.append((mode, []))           # unconstrained run: the reference output
+        jobs += [(mode, s, "") for s in scheds]
+        # the same interleavings with a slow background determination (a query that arrives first has to wait
+        # noticeably long for it) and with a slow main thread
+        slow = [s for s in scheds if "q_enter" in s and "b_compute" in s and s.index("q_enter") < s.index("b_compute")]
+        jobs += [(mode, s, "b_compute:400") for s in (slow if tier == "thorough" else rnd.sample(slow, min(len(slow), 12)))]
+        jobs += [(mode, s, "q_enter:150") for s in rnd.sample(scheds, min(len(scheds), 6 if tier == "quick" else 40))]
+        jobs.append((mode, [], ""))           # unconstrained run: the reference output
     log(f"[{PID}] design level: {sum(m.distinct for m in mcs.values())} states, all interleavings safe and live; "
         f"{len(jobs)} schedules to force on the binary")
-    res = core.pmap(lambda ij: run_scheduled(ij[1][0], ij[1][1], workdir, ij[0]), list(enumerate(jobs)), jobs=8)
-    ref = {m: next(r for (mm, s), r in zip(jobs, res) if mm == m and not s) for m in ("wrap", "stdin")}
+    res = core.pmap(lambda ij: run_scheduled(ij[1][0], ij[1][1], workdir, ij[0], ij[1][2]), list(enumerate(jobs)), jobs=8)
+    ref = {m: next(r for (mm, s, d), r in zip(jobs, res) if mm == m and not s) for m in ("wrap", "stdin")}
     events = []
-    for i, ((mode, sched), r) in enumerate(zip(jobs, res)):
+    for i, ((mode, sched, delay), r) in enumerate(zip(jobs, res)):
         events.append({"run": i, "label": "reset", "value": mode})
         for e in r["events"]:
             if e["label"] in ("b_released", "m_released") and e["value"] != "TIMEOUT":
@@ -106,30 +113,31 @@ def run(tier):
             events.append({"run": i, "label": e["label"], "value": v})
         if r["timed_out"] or r["code"] != 0:
             V.violation(f"exit:{mode}:{','.join(sched)}", f"delta did not finish normally (exit {r['code']}, timed out={r['timed_out']}) "
-                        f"under schedule {sched}", {"mode": mode, "schedule": sched, "stderr": r["err"].decode("utf-8", "replace")[:500]})
+                        f"under schedule {sched} {delay}", {"mode": mode, "schedule": sched, "delay": delay, "stderr": r["err"].decode("utf-8", "replace")[:500]})
         elif r["out"] != ref[mode]["out"]:
             V.violation(f"output:{mode}:{','.join(sched)}", f"rendering differs from the unscheduled run under schedule {sched} "
-                        f"(the detected command leaked into the output)", {"mode": mode, "schedule": sched})
-        if sched and not r["timed_out"]:
+                        f"(the detected command leaked into the output)", {"mode": mode, "schedule": sched, "delay": delay})
+        if sched and not r["timed_out"] and not delay:     # (a slowed-down background thread may be outlived by the process)
             # the controllable points must have happened in the scheduled order
             ptr = 0
             for e in r["events"]:
                 if ptr < len(sched) and e["label"] == sched[ptr]:
                     ptr += 1
-            if ptr != len(sched):
+            # (the process may exit while the background thread is still on its way: its last points need not be reached)
+            if ptr != len(sched) and not all(x.startswith("b_") for x in sched[ptr:]):
                 V.drift.append(f"schedule not followed to the end: {sched} (reached {ptr})")
     failed, tr = tlc.validate_trace("Trace_Caller", events)
     log(f"[{PID}] {len(jobs)} runs, {len(events)} hook events validated against Caller by TLC: {len(failed)} runs rejected")
     for f in failed:
-        mode, sched = jobs[f["run"]]
-        V.violation(f"trace:{f['why']}:{f['label']}:{mode}:{','.join(sched)}",
-                    f"hook trace is not a behaviour of Caller: {f['why']} at {f['label']} under schedule {sched} ({mode})",
-                    {"mode": mode, "schedule": sched, "events": res[f["run"]]["events"][:40]})
+        mode, sched, delay = jobs[f["run"]]
+        V.violation(f"trace:{f['why']}:{f['label']}:{mode}:{','.join(sched)}:{delay}",
+                    f"hook trace is not a behaviour of Caller: {f['why']} at {f['label']} under schedule {sched} ({mode}{', slow thread ' + delay if delay else ''})",
+                    {"mode": mode, "schedule": sched, "delay": delay, "events": res[f["run"]]["events"][:40]})
     rc = V.finish()
     core.write_evidence(PID, tier, "model_checking", {
         "states": sum(m.distinct for m in mcs.values()), "transitions": sum(m.generated for m in mcs.values()),
         "traces_validated_against_impl": len(jobs), "evaluations": len(jobs),
-        "distinct_nontrivial": len({m + ",".join(s) for m, s in jobs}),
+        "distinct_nontrivial": len({m + ",".join(s) + d for m, s, d in jobs}),
         "rule": "TLC enumerates every maximal interleaving of the hook points of the background thread, the publication of a known "
                 "command and the first 2-3 queries (stdin mode and `delta git grep` mode); each is forced on the real binary through "
                 "DELTA_VERIF_SCHEDULE with a stub parent `git log -p` (so the background guess differs from the known command); the "
